@@ -30,6 +30,9 @@ def main():
     try:
         for d in dirs:
             meta = json.loads((d / "meta.json").read_text())
+            if meta.get("retired"):
+                print(f"{d.name}: retired ({meta['retired'][:80]}...)", flush=True)
+                continue
             props = meta.get("caught_by") or [meta.get("property", d.name.split("-")[1])]
             sh("git checkout -- src", cwd=WT)
             rc, out = sh(f"git apply {d / 'patch.diff'}", cwd=WT)
